@@ -47,3 +47,69 @@ def run_both(chk, stream, cases, project=None, robust=False, profile='debug'):
             m, s = cases[i]
             chk.oracle_fail('utf8-invalid-slice', m, s, l[:200], 'u=0', 'hook H2: a byte slice that is not valid UTF-8 reached from_utf8_unchecked (property C17)')
     return a, b
+
+
+# ---- tree projections (JSON as printed by serde_json / the model's Gen/Json.lean)
+
+def erase(v, keep_empty=False):
+    """the tree without positions, comments, docs and (unless keep_empty) empty statements.  What is
+    structure stays: `pos1` of a declaration (grouped or not) and `dots` of a call become booleans,
+    the operator of a range clause is kept without its offset, FieldList.pos (parenthesised or not)
+    becomes a boolean."""
+    if isinstance(v, dict):
+        out = {}
+        for k, x in v.items():
+            if k in ('pos', 'pos0'):
+                if k == 'pos' and (x is None or (isinstance(x, list) and 'list' in v and len(v) == 2)):
+                    out['paren'] = x is not None      # FieldList
+                continue
+            if k in ('comments', 'docs', 'line_info'):
+                continue
+            if k == 'path' and isinstance(x, str):
+                continue
+            if k == 'pos1':
+                out['grouped'] = x is not None
+            elif k == 'dots':
+                out['dots'] = x is not None
+            elif k == 'op' and isinstance(x, list) and len(x) == 2 and isinstance(x[0], int):
+                out['op'] = x[1]
+            else:
+                out[k] = erase(x, keep_empty)
+        return out
+    if isinstance(v, list):
+        r = [erase(x, keep_empty) for x in v]
+        if not keep_empty:
+            r = [x for x in r if not (isinstance(x, dict) and list(x.keys()) == ['Empty'])]
+        return r
+    return v
+
+
+def leaves(v, out=None):
+    """identifier and literal leaves (offset, text) of a tree, in tree order"""
+    if out is None: out = []
+    if isinstance(v, dict):
+        ks = set(v.keys())
+        if ks == {'pos', 'name'} and isinstance(v['name'], str):
+            out.append((v['pos'], v['name']))
+        elif ks == {'pos', 'kind', 'value'}:
+            out.append((v['pos'], v['value']))
+        elif ks == {'pos', 'value'} and isinstance(v['value'], str):
+            out.append((v['pos'], v['value']))
+        else:
+            for k, x in v.items():
+                if k in ('comments', 'docs'):
+                    continue
+                leaves(x, out)
+    elif isinstance(v, list):
+        for x in v: leaves(x, out)
+    return out
+
+
+def outcome(line):
+    """('ok', tree) | ('err', errdict) | ('panic', msg) | ('crash', sig) | ('timeout', None) | ('other', js)"""
+    u, js = parse_line(line)
+    if isinstance(js, dict):
+        for k in ('ok', 'err', 'panic', 'crash', 'timeout'):
+            if k in js:
+                return k, js[k]
+    return 'other', js
